@@ -67,7 +67,9 @@ BinOk(e, md) ==
        [] op = "div_rounded" -> S!DivRoundedOk(x, y, e.n, md, o)
        [] op = "mul_rounded" -> S!MulRoundedOk(x, y, e.n, md, o)
        [] op = "quantize" -> S!QuantizeOk(x, y, md, o)
-       [] op = "abs_sub" -> IF S!CmpVal(x, y) <= 0 THEN S!SameValue(o, Z0, 0) ELSE S!AddSubOk(x, y, TRUE, o)
+       [] op = "abs_sub" -> IF S!CmpVal(x, y) <= 0 THEN S!SameValue(o, Z0, 0)             \* max(x - y, 0): value only
+                            ELSE LET m == S!Max(x.f, y.f)  dv == BSub(S!Scale(x.c, m - x.f), S!Scale(y.c, m - y.f)) IN
+                                 S!SameValue(o, dv, m) \/ (S!IsFail(o) /\ S!AddSubOk(x, y, TRUE, S!Fail))
 UnOk(e, md) ==
   LET x == DecOf(e.x)  op == e.op  o == OutOf(e.out, FailKind(e.op)) IN
   CASE op \in {"round", "checked_round"} -> S!RoundOk(x, e.n, md, o)
